@@ -65,7 +65,7 @@ def run(ctx, rep):
               "key is %s and the registry lives for the whole middleware instance: the same selection and "
               "factor removed in another market of the run is taken for already applied and never processed" % (comps,))
     gs = [(utext(g.exprs[0]), pol) for g, pol in cfg.guards(n.id)]
-    rep.check(("%s not in self._runner_removals" % keyname, True) in gs and ("runner.status == 'REMOVED'", True) in gs,
+    rep.check(("%s in self._runner_removals" % keyname, False) in gs and ("runner.status == 'REMOVED'", True) in gs,
               "R1", key(call, None, "a removal is registered only when it is new"), call, c, str(gs))
     lst = [(n2, c2) for n2, c2 in node_calls(cfg, "append") if recv_text(c2) == "runner_removals"]
     good = len(lst) == 1 and [(utext(g.exprs[0]), pol) for g, pol in cfg.guards(lst[0][0].id)] == gs
